@@ -5,7 +5,6 @@ import (
 	"fmt"
 	"strconv"
 	"strings"
-	"unicode/utf8"
 
 	"verif/ir"
 	"verif/ref"
@@ -94,6 +93,33 @@ type Opts struct {
 type renderer struct {
 	o Opts
 	b strings.Builder
+	// unary-chain context handed from a unary operator to its operand (consumed by the next call of bare):
+	// the grammar is Unary ::= ['!' | '-']x4 Member, i.e. at most four *identical* prefix operators.
+	chainOp  ir.Op
+	chainLen int
+	// statistics for the non-triviality rules of C07/C08
+	NeedParens int // parentheses that precedence / associativity / the unary rule required
+	Escapes    int // characters written in escaped form
+}
+
+// Stats reports how many parentheses the minimal rendering of p needs and how many characters need an escape.
+func Stats(p *ir.Policy) (parens, escapes int) {
+	r := &renderer{}
+	for _, c := range p.Conds {
+		_ = r.expr(c.Body, pIf)
+	}
+	for _, a := range p.Annotations {
+		_ = r.quote(a.V)
+	}
+	for _, s := range []ir.Scope{p.Principal, p.Action, p.Resource} {
+		if s.Entity != nil {
+			_ = r.quote(s.Entity.S)
+		}
+		for _, e := range s.Entities {
+			_ = r.quote(e.S)
+		}
+	}
+	return r.NeedParens, r.Escapes
 }
 
 // String escapes s as a Cedar string literal body (without quotes). star=true additionally escapes '*' (patterns).
@@ -128,14 +154,18 @@ func EscapeString(s string, star bool, variant func(n int) int) string {
 				fmt.Fprintf(&b, `\u{%x}`, r)
 			}
 		case r < 0x7f:
-			if variant != nil && variant(16) == 0 {
+			switch {
+			case variant != nil && variant(16) == 0:
 				fmt.Fprintf(&b, `\u{%X}`, r)
-			} else {
+			case variant != nil && variant(24) == 0:
+				fmt.Fprintf(&b, `\x%02X`, r)
+			default:
 				b.WriteRune(r)
 			}
 		default:
 			// non-ASCII: escape always; raw form is exercised separately (RawString)
-			if variant != nil && variant(2) == 1 && r != utf8.RuneError && r != 0x2028 && r != 0x2029 && r != 0x85 {
+			// raw form; U+2028/2029/0085 are never written raw (appendix C: raw line breaks inside literals are not generated)
+			if variant != nil && variant(2) == 1 && r != 0x2028 && r != 0x2029 && r != 0x85 {
 				b.WriteRune(r)
 			} else {
 				fmt.Fprintf(&b, `\u{%x}`, r)
@@ -148,10 +178,14 @@ func EscapeString(s string, star bool, variant func(n int) int) string {
 func Quote(s string) string { return `"` + EscapeString(s, false, nil) + `"` }
 
 func (r *renderer) quote(s string) string {
+	var body string
 	if r.o.Noise != nil {
-		return `"` + EscapeString(s, false, r.o.Noise.Next) + `"`
+		body = EscapeString(s, false, r.o.Noise.Next)
+	} else {
+		body = EscapeString(s, false, nil)
 	}
-	return Quote(s)
+	r.Escapes += strings.Count(body, `\`)
+	return `"` + body + `"`
 }
 
 func EntityUID(v ir.Value) string { return v.T + "::" + Quote(v.S) }
@@ -242,14 +276,86 @@ func prec(e *ir.Expr) int {
 func (r *renderer) ws() string  { return r.o.Noise.ws() }
 func (r *renderer) ows() string { return r.o.Noise.ows() }
 
+// sws is the layout around a symbolic operator: canonical " ", under noise any optional whitespace (possibly none).
+func (r *renderer) sws() string {
+	if r.o.Noise == nil {
+		return " "
+	}
+	return r.o.Noise.ows()
+}
+
+// unaryOpOf tells which prefix operator the text of e starts with ("" if none): a negative long literal starts with '-'.
+func unaryOpOf(e *ir.Expr) ir.Op {
+	switch {
+	case e.Op == ir.OpNot:
+		return ir.OpNot
+	case e.Op == ir.OpNeg:
+		return ir.OpNeg
+	case e.Op == ir.OpLit && e.Lit.K == ir.KLong && e.Lit.I < 0:
+		return ir.OpNeg
+	}
+	return ""
+}
+
 // expr renders e in a context that requires at least precedence level min.
-func (r *renderer) expr(e *ir.Expr, min int) string {
-	s := r.bare(e)
+func (r *renderer) expr(e *ir.Expr, min int) string { return r.exprChain(e, min, "", 0) }
+
+// exprChain is expr for the operand of a unary operator: chainOp/chainLen describe the run of identical prefix
+// operators already written directly in front of e.
+func (r *renderer) exprChain(e *ir.Expr, min int, chainOp ir.Op, chainLen int) string {
 	leaf := e.Op == ir.OpLit || e.Op == ir.OpVar
-	if prec(e) < min || (r.o.FullParen && !leaf) || (r.o.Noise != nil && !leaf && r.o.Noise.Next(10) == 0) {
+	need := prec(e) < min
+	if chainLen > 0 {
+		if eo := unaryOpOf(e); eo != "" && (eo != chainOp || chainLen >= 4) {
+			need = true // mixed "!-" chains and more than four prefix operators are outside the documented grammar
+		}
+	}
+	if need {
+		r.NeedParens++
+	}
+	if need || (r.o.FullParen && !leaf) || (r.o.Noise != nil && !leaf && r.o.Noise.Next(10) == 0) {
+		r.chainOp, r.chainLen = "", 0
+		s := r.bare(e)
 		return "(" + r.ows() + s + r.ows() + ")"
 	}
-	return s
+	r.chainOp, r.chainLen = chainOp, chainLen
+	return r.bare(e)
+}
+
+func sameExpr(a, b *ir.Expr) bool { return ir.JSON(a) == ir.JSON(b) }
+
+// hasChain recognises the expansion of `x has a.b.c` (an && chain of has-tests on growing access paths with identifier
+// names, at least two of them) and returns x and the names.
+func hasChain(e *ir.Expr) (*ir.Expr, []string, bool) {
+	var conj []*ir.Expr
+	for e.Op == ir.OpAnd {
+		conj = append([]*ir.Expr{e.Args[1]}, conj...)
+		e = e.Args[0]
+	}
+	conj = append([]*ir.Expr{e}, conj...)
+	if len(conj) < 2 {
+		return nil, nil, false
+	}
+	var base *ir.Expr
+	var names []string
+	for i, c := range conj {
+		if c.Op != ir.OpHas || !IsIdent(c.Name) {
+			return nil, nil, false
+		}
+		if i == 0 {
+			base = c.Args[0]
+		} else {
+			want := base
+			for _, n := range names {
+				want = ir.Access(want, n)
+			}
+			if !sameExpr(c.Args[0], want) {
+				return nil, nil, false
+			}
+		}
+		names = append(names, c.Name)
+	}
+	return base, names, true
 }
 
 func (r *renderer) key(k string) (string, bool) {
@@ -260,8 +366,13 @@ func (r *renderer) key(k string) (string, bool) {
 }
 
 func (r *renderer) bare(e *ir.Expr) string {
+	chainOp, chainLen := r.chainOp, r.chainLen
+	r.chainOp, r.chainLen = "", 0
 	bin := func(op string, l, rr int) string {
-		return r.expr(e.Args[0], l) + r.ws() + op + r.ws() + r.expr(e.Args[1], rr)
+		if op == "in" { // keyword operator: whitespace is mandatory
+			return r.expr(e.Args[0], l) + r.ws() + op + r.ws() + r.expr(e.Args[1], rr)
+		}
+		return r.expr(e.Args[0], l) + r.sws() + op + r.sws() + r.expr(e.Args[1], rr)
 	}
 	method := func(name string, args ...*ir.Expr) string {
 		p := make([]string, len(args))
@@ -280,6 +391,12 @@ func (r *renderer) bare(e *ir.Expr) string {
 	case ir.OpOr:
 		return bin("||", pOr, pAnd)
 	case ir.OpAnd:
+		if r.o.Noise != nil {
+			if base, names, ok := hasChain(e); ok && r.o.Noise.Next(2) == 0 {
+				// the documented shorthand `x has a.b.c`
+				return r.expr(base, pAdd) + r.ws() + "has" + r.ws() + strings.Join(names, r.ows()+"."+r.ows())
+			}
+		}
 		return bin("&&", pAnd, pRel)
 	case ir.OpEq:
 		return bin("==", pAdd, pAdd)
@@ -302,15 +419,24 @@ func (r *renderer) bare(e *ir.Expr) string {
 	case ir.OpMul:
 		return bin("*", pMul, pUnary)
 	case ir.OpNot:
-		return "!" + r.ows() + r.expr(e.Args[0], pUnary)
+		n := 1
+		if chainOp == ir.OpNot {
+			n = chainLen + 1
+		}
+		return "!" + r.ows() + r.exprChain(e.Args[0], pUnary, ir.OpNot, n)
 	case ir.OpNeg:
 		a := e.Args[0]
 		// "-" directly followed by an integer literal is a negative literal in the grammar, so Neg(non-negative literal)
 		// must keep its operand in parentheses; "- -5" (Neg of a negative literal) is fine.
 		if a.Op == ir.OpLit && a.Lit.K == ir.KLong && a.Lit.I >= 0 {
-			return "-" + r.ows() + "(" + r.value(*a.Lit) + ")"
+			r.NeedParens++
+			return "-" + r.ows() + "(" + r.ows() + r.value(*a.Lit) + r.ows() + ")"
 		}
-		return "-" + r.ows() + r.expr(a, pUnary)
+		n := 1
+		if chainOp == ir.OpNeg {
+			n = chainLen + 1
+		}
+		return "-" + r.ows() + r.exprChain(a, pUnary, ir.OpNeg, n)
 	case ir.OpHas:
 		k, _ := r.key(e.Name)
 		return r.expr(e.Args[0], pAdd) + r.ws() + "has" + r.ws() + k
@@ -374,6 +500,17 @@ func (r *renderer) bare(e *ir.Expr) string {
 
 func (r *renderer) value(v ir.Value) string {
 	switch v.K {
+	case ir.KLong:
+		s := strconv.FormatInt(v.I, 10)
+		if r.o.Noise != nil {
+			if v.I < 0 {
+				return "-" + r.ows() + s[1:] // "-" and the digits are separate tokens
+			}
+			if r.o.Noise.Next(16) == 0 {
+				return "00" + s // leading zeros do not change the value
+			}
+		}
+		return s
 	case ir.KString:
 		return r.quote(v.S)
 	case ir.KEntity:
@@ -472,6 +609,16 @@ func Policy(p *ir.Policy, o Opts) string {
 func Expr(e *ir.Expr, o Opts) string {
 	r := &renderer{o: o}
 	return r.expr(e, pIf)
+}
+
+// ExprOperand renders e so that it can stand as an operand of a relational operator (grammar level Add) or, with
+// member=true, as the receiver of a member access (grammar level Member).
+func ExprOperand(e *ir.Expr, o Opts, member bool) string {
+	r := &renderer{o: o}
+	if member {
+		return r.expr(e, pMember)
+	}
+	return r.expr(e, pAdd)
 }
 
 // Position bookkeeping for documents: Line/Column/Offset of a byte offset in doc (column counts runes, 1-based).
